@@ -1,10 +1,10 @@
 SPECIFICATION Spec
 CONSTANTS
-  MaxLen = 5
-  MaxDepth = 2
-  Conds = {"T", "F", "D", "V"}
+  MaxLen = 14
+  MaxDepth = 4
+  Conds = {"T", "F", "D", "N", "V", "U", "R", "H", "J"}
   Kinds = {"if", "elif", "ifdef", "ifndef", "elifdef", "elifndef", "else", "endif", "text", "def0", "def1", "undef", "warn", "err", "inc", "inc2", "push", "pop"}
-  MinDump = 5
+  MinDump = 9
 INVARIANT Refines
 INVARIANT ClosedNormal
 INVARIANT AtMostOneGroup
